@@ -394,7 +394,9 @@ def transform(
             warnings.warn(
                 "Input`target_data` has no name, but we need a name for the transformed dimension. The name `TRANSFORMED_DIMENSION` will be used. To avoid this warning, call `.rename` on `target_data` before calling `transform`."
             )
-            target_data.name = "TRANSFORMED_DIMENSION"
+            # name a copy: the caller's array is left as it was given
+            target_data = target_data.rename("TRANSFORMED_DIMENSION")
+        return target_data
 
     def _check_other_dims(target_da):
         # check if other dimensions (excluding ones associated with the transform axis) are the
@@ -432,7 +434,7 @@ def transform(
                         )
             else:
                 # if the target is not provided as xr.Dataarray we take the name of the target_data as new dimension name
-                _target_data_name_handling(target_data)
+                target_data = _target_data_name_handling(target_data)
                 target_dim = target_data.name
         if not isinstance(target, xr.DataArray):
             target = xr.DataArray(
